@@ -416,6 +416,67 @@ def run(tier, seed):
                     chk.ok(cid, outcome="cast-exact")
                 else:
                     chk.fail(cid, "cast-wrong-value", cc, {"got": got, "want": exp}, outcome="cast")
+    # ---- DOUBLE next to DECIMAL: huge / infinite doubles (and such raw values under NULL slots) in casts and comparisons
+    fd_rows = [(1, "1.5", "1.5"), (2, "cast('1e300' as double)", "2.5"), (3, "null", "null"), (4, "cast('-1e300' as double)", "-0.01"), (5, "2.5", "12345678.90"), (6, "null", "1.00"), (7, "0.25", "null")]
+    fd_val = {1: (1.5, 1.5), 2: (1e300, 2.5), 3: (None, None), 4: (-1e300, -0.01), 5: (2.5, 12345678.90), 6: (None, 1.0), 7: (0.25, None)}
+    inf = float("inf")
+
+    def big(x):          # d * d overflows to infinity for the huge values
+        return None if x is None else (inf if abs(x) > 1e154 else x * x)
+    fd_exprs = [
+        ("d > e", lambda d, e: None if d is None or e is None else d > e),
+        ("d = e", lambda d, e: None if d is None or e is None else d == e),
+        ("e <= d", lambda d, e: None if d is None or e is None else e <= d),
+        ("d * d > e", lambda d, e: None if d is None or e is None else big(d) > e),
+        ("(d * d) is null", lambda d, e: d is None),
+        ("case when d * d > e then 1 else 0 end", lambda d, e: 1 if (d is not None and e is not None and big(d) > e) else 0),
+    ]
+    steps = [{"sql": "create table fd(i int, d double, e decimal(10,2))"}] + [{"sql": f"insert into fd values ({i}, {d}, {e})"} for i, d, e in fd_rows]
+    n0 = len(steps)
+    for sql, _ in fd_exprs:
+        steps.append({"sql": f"select i, {sql} from fd"})
+    steps.append({"sql": "select i from fd where d > e"})
+    steps.append({"sql": "select i, cast(d as decimal) from fd where i in (1, 5, 7)"})
+    steps.append({"sql": "select i, cast(d as decimal) from fd where i = 2"})
+    steps.append({"sql": "select i, cast(d * d as decimal) from fd where i = 4"})
+    for engine in ("mem", "disk"):
+        r = runner.run_many("sql", [{"id": 0, "engine": engine, "opts": {"block": 64, "rowset": 1 << 20}, "steps": steps}], timeout=120)[0]
+        rs = r.get("results", [])
+        if r.get("abort") or any(U.status(x) != "rows" for x in rs[:n0]):
+            chk.machinery(f"double/decimal setup failed on {engine}: {json.dumps(rs[:n0])[:300]}")
+            continue
+        for k, (sql, f) in enumerate(fd_exprs):
+            c = {"fd": sql, "engine": engine}
+            cid = core.case_id(c)
+            x = rs[n0 + k]
+            if not U.is_rows(x):
+                chk.fail(cid, "evaluation-fails@double-decimal", c, x, outcome="fails")
+                continue
+            got = {g[0]: (bool(g[1]) if isinstance(g[1], bool) else g[1]) for g in U.decode(x)}
+            bad = [(i, got.get(i, "MISSING"), f(*fd_val[i])) for i in fd_val if got.get(i, "MISSING") != f(*fd_val[i])]
+            if bad:
+                chk.fail(cid, "wrong-value@double-decimal", c, {"first_bad": bad[:4]}, outcome="wrong")
+            else:
+                chk.ok(cid, outcome="ok:double-decimal", sample={"case": c})
+        base = n0 + len(fd_exprs)
+        c = {"fd": "where d > e", "engine": engine}
+        want = sorted(i for i, (d, e) in fd_val.items() if d is not None and e is not None and d > e)
+        if U.is_rows(rs[base]) and sorted(g[0] for g in U.decode(rs[base])) == want:
+            chk.ok(core.case_id(c), outcome="ok:double-decimal")
+        else:
+            chk.fail(core.case_id(c), "wrong-value@double-decimal", c, rs[base], outcome="wrong")
+        c = {"fd": "cast(d as decimal), representable", "engine": engine}
+        if U.is_rows(rs[base + 1]) and len(rs[base + 1]["rows"]) == 3:
+            chk.ok(core.case_id(c), outcome="ok:double-decimal")
+        else:
+            chk.fail(core.case_id(c), "evaluation-fails@double-decimal", c, rs[base + 1], outcome="fails")
+        for off, what in ((2, "cast(1e300 as decimal)"), (3, "cast(inf as decimal)")):
+            c = {"fd": what, "engine": engine}
+            x = rs[base + off]
+            if U.status(x).startswith("err") and "panicked" not in json.dumps(x):
+                chk.ok(core.case_id(c), outcome="cast-out-of-range-reported")
+            else:
+                chk.fail(core.case_id(c), "out-of-range-cast-not-an-error", c, x, outcome="cast")
     # ---- overflow must be an error
     scripts = []
     for q, data in OVERFLOW:
